@@ -483,7 +483,7 @@ def c02_instances(tier):
          sum_inst([2, 2, 2], 2, 1), reshape_inst([2, 2], [4], 1),
          ew_grad_inst("mul", [2, 2], [2]), ew_grad_inst("div", [2], [2, 2]),
          mm_grad_inst([2, 2], False, [2, 1], False, [1]), mm_grad_inst([2, 1], True, [2, 2], True),
-         conv_inst([], 1, 2, 3, 1, 1, 2, 1, 1, 1)]
+         conv_inst([], 1, 2, 3, 1, 1, 2, 1, 1, 1), conv_inst([2], 1, 1, 2, 1, 1, 1, 1, 1, 1)]
     if tier == "thorough":
         for op, p, d in [("neg", 0, [2]), ("scale", -2, [2]), ("powf", 2, [2]), ("powf", -1, [2]), ("powf", 0.5, [2]), ("powf", 0, [2]),
                          ("powf", 1, [2]), ("exp", 0, [2]), ("relu", 0, [3]), ("powf", 3, [2, 2]), ("ln", 0, [1, 2]), ("recip", 0, [2, 1])]:
